@@ -98,6 +98,17 @@ def tok_of_const(value):
 TRUE, FALSE, NONE = Tok("True"), Tok("False"), Tok("None")
 
 
+def truth(st, v):
+    """True / False / None(unknown) of a boolean-valued abstract value"""
+    if isinstance(v, Tok):
+        return {"True": True, "False": False}.get(v.v)
+    s = pure_sym(v)
+    if s is not None:
+        e = st.enum_single(s)
+        return {"True": True, "False": False}.get(e)
+    return None
+
+
 def yield_index(fn):
     """id(yield node) -> (kind, ordinal among that kind in source order)"""
     out, counts = {}, {}
@@ -142,6 +153,9 @@ class Interp:
         self.yields, self.calls, self.labels = [], [], []
         self.outcomes, self.cops, self.subs = [], [], []
         self.substores = []
+        self.label_atoms = {}
+        self.tuple_arity = {}
+        self.summaries = {}
         self.containers = set()
         self.container_arity = {}
         self.attr_writes = set()
@@ -223,6 +237,9 @@ class Interp:
                 return Val("container", s)
             if s in self.closures:
                 return Val("closure", s)
+            ar = self.tuple_arity.get(s) if isinstance(node, ast.Name) else None
+            if ar and st.enum_is(s, "None") == "no":
+                return tuple(Lin.sym(f"{s}.{k}") for k in range(ar))
             single = st.enum_single(s)
             if single is not None and single not in ("True", "False"):
                 # a location known to hold one non-numeric constant
@@ -270,10 +287,76 @@ class Interp:
             return Val("lit", node)
         return self.opaque(node, st)
 
-    def opaque(self, node, st):
-        a = self.site(node)
+    def opaque(self, node, st, tag=""):
+        a = self.site(node, tag)
         st.forget_all(a)
+        if st.cond:
+            st.cond = [c for c in st.cond if a != c[0] and all(a not in e.t for e in c[2] + c[3])]
         return Lin.sym(a)
+
+    def fire_conds(self, st):
+        if not st.cond:
+            return
+        keep = []
+        for c in st.cond:
+            key, tok, eqs, ineqs = c
+            fired = False
+            dead = False
+            cands = [key] + [s for s in st.enums if not s.startswith("$") and s != key]
+            for s in cands:
+                e = st.enum_get(s)
+                if e is None:
+                    continue
+                if s != key and st.entails_eq(Lin.sym(s) - Lin.sym(key)) != "yes":
+                    continue
+                if e[0] == "in" and e[1] == frozenset([tok]):
+                    fired = True
+                    break
+                elif (e[0] == "in" and tok not in e[1]) or (e[0] == "notin" and tok in e[1]):
+                    dead = True
+                    break
+            if fired:
+                for q in eqs:
+                    st.add_eq(q)
+                for q in ineqs:
+                    st.add_ineq(q)
+            elif not dead:
+                keep.append(c)
+        st.cond = keep
+
+    def summarised_call(self, name, node, args, st):
+        """instantiate the return-case summary of a pure planner function"""
+        cases = self.summaries[name]
+        # atoms are named after the argument text, so that the two arms of a
+        # selection site (memoised / tabulated planner, same arguments) produce
+        # the same facts and survive the join
+        if isinstance(node, ast.Call):
+            text = ",".join(ast.unparse(a) for a in node.args)
+        elif isinstance(node.slice, ast.Tuple):
+            text = ",".join(ast.unparse(a) for a in node.slice.elts)
+        else:
+            text = ast.unparse(node.slice)
+        text = "".join(text.split())
+
+        def atom(tag):
+            a = f"@plan[{text}].{tag}"
+            st.forget_all(a)
+            if st.cond:
+                st.cond = [c for c in st.cond if a != c[0] and all(a not in e.t for e in c[2] + c[3])]
+            return Lin.sym(a)
+        a0 = atom("a0")
+        if args and isinstance(args[0], Lin):
+            st.add_eq(a0 - args[0])
+        rets = [atom(f"r{k}") for k in range(3)]
+        ren = {"n": pure_sym(a0), "len": pure_sym(rets[1])}
+        toks = []
+        for tok, eqs, ineqs in cases:
+            toks.append(tok)
+            def rn(l):
+                return Lin({ren[k]: v for k, v in l.t.items()}, l.c)
+            st.cond.append((pure_sym(rets[0]), tok, tuple(rn(q) for q in eqs), tuple(rn(q) for q in ineqs)))
+        st.enum_meet(pure_sym(rets[0]), "in", toks)
+        return tuple(rets)
 
     def ev_subscript(self, node, st):
         base = node.value
@@ -294,6 +377,9 @@ class Interp:
                 st.enum_meet(pure_sym(r), "in", [v.v for v in vals])
             return r
         bs = self.sym_of(base)
+        if isinstance(base, ast.Name) and self.tuple_arity.get(bs) and isinstance(node.slice, ast.Constant) \
+                and isinstance(node.slice.value, int) and 0 <= node.slice.value < self.tuple_arity[bs]:
+            return Lin.sym(f"{bs}.{node.slice.value}")
         if bs in self.containers:
             sl = node.slice
             if isinstance(sl, ast.UnaryOp) and isinstance(sl.op, ast.USub) and \
@@ -314,8 +400,14 @@ class Interp:
         if bs is not None:
             if self.record:
                 self.subs.append((node, bs, idx, st.copy()))
-            if isinstance(idx, Lin):
-                return Val("label", (bs, idx))
+            if bs + "[]" in self.summaries and isinstance(idx, tuple):
+                return self.summarised_call(bs + "[]", node, list(idx), st)
+            if isinstance(idx, Lin) and bs.startswith("self."):
+                # a label looked up in a per-instance table: an atom that remembers
+                # table and index (the index is checked where it is evaluated)
+                a = self.opaque(node, st)
+                self.label_atoms[pure_sym(a)] = (bs, node)
+                return a
         return self.opaque(node, st)
 
     def ev_call(self, node, st):
@@ -347,6 +439,12 @@ class Interp:
                 return self.inline(self.closures[f.id], node, st)
             if f.id in self.hooks:
                 return self.hooks[f.id](self, node, st)
+            if f.id in self.summaries:
+                args = [self.ev(a, st) for a in node.args]
+                if self.record and f.id in self.record_calls:
+                    self.calls.append(CallRec(node, f.id, self.cidx.get((node.lineno, node.col_offset), -1),
+                                              args, {}, st.copy()))
+                return self.summarised_call(f.id, node, args, st)
             args = [self.ev(a, st) for a in node.args]
             kwargs = {k.arg: self.ev(k.value, st) for k in node.keywords if k.arg}
             if self.record and f.id in self.record_calls:
@@ -386,8 +484,10 @@ class Interp:
             st.assign(L, Lin.sym(L) + ONE)
             for t, comp in zip(tops, comps):
                 self.set_loc(t, comp, st)
+            trk = st.enum_single(f"$trk({c})")
             if self.record:
                 self.cops.append((node, c, "push", comps, st.copy()))
+            st.enum_set(f"$trk({c})", {"0": "P", "W": "0"}.get(trk, "ERR"))
             return NONE
         if op in ("pop", "remove", "discard"):
             arg = [self.ev(a, st) for a in node.args]
@@ -402,8 +502,10 @@ class Interp:
             st.assign(L, Lin.sym(L) - ONE)
             for t in tops:
                 st.forget_all(t)
+            trk = st.enum_single(f"$trk({c})")
             if self.record:
                 self.cops.append((node, c, "pop", arg, st.copy()))
+            st.enum_set(f"$trk({c})", {"0": "X"}.get(trk, "ERR"))
             return NONE
         for a in node.args:
             self.ev(a, st)
@@ -480,6 +582,9 @@ class Interp:
     def assume(self, test, st, truth):
         """-> list of states (a disjunction); empty list = infeasible"""
         outs = self._assume(test, st.copy(), truth)
+        for s in outs:
+            if s.cond and not s.bottom:
+                self.fire_conds(s)
         return [s for s in outs if not s.bottom and not s.infeasible()]
 
     def _assume(self, t, st, truth):
@@ -679,6 +784,20 @@ class Interp:
             if self.record and isinstance(tgt, ast.Subscript):
                 self.substores.append((tgt, st.copy()))
             return
+        if isinstance(tgt, ast.Name):
+            old = self.tuple_arity.get(s)
+            if isinstance(val, tuple) and all(isinstance(v, (Lin, Tok)) for v in val):
+                self.tuple_arity[s] = max(old or 0, len(val))
+                for k, v in enumerate(val):
+                    self.set_loc(f"{s}.{k}", v, st)
+                for k in range(len(val), self.tuple_arity[s]):
+                    st.forget_all(f"{s}.{k}")
+                st.forget(s)
+                st.enums[s] = ("notin", frozenset(["None"]))
+                return
+            if old:
+                for k in range(old):
+                    st.forget_all(f"{s}.{k}")
         if s.startswith("self."):
             self.attr_writes.add(s[5:])
             st.may["$stores"] = st.may.get("$stores", frozenset()) | {s[5:]}
@@ -747,6 +866,9 @@ class Interp:
                     if k.startswith(f"top({c})") or k == f"popped({c})":
                         st.forget_all(k)
                 st.assign(f"len({c})", Lin.const(len(elts)))
+                st.enum_set(f"$trk({c})", "0")
+                if f"$trk({c})" not in self.partvars:
+                    self.partvars = self.partvars + (f"$trk({c})",)
                 if elts:
                     v = self.ev(elts[-1], st)
                     if isinstance(v, tuple):
@@ -872,8 +994,22 @@ class Interp:
         for x in head:
             if isinstance(s, ast.For):
                 y = x.copy()
-                self.ev(s.iter, y)
+                rng = None
+                if isinstance(s.iter, ast.Call) and isinstance(s.iter.func, ast.Name) and s.iter.func.id == "range" \
+                        and 1 <= len(s.iter.args) <= 2 and isinstance(s.target, ast.Name):
+                    rng = [self.ev(a, y) for a in s.iter.args]
+                    if len(rng) == 1:
+                        rng = [Lin.const(0), rng[0]]
+                else:
+                    self.ev(s.iter, y)
                 self.assign_target(s.target, None, y)
+                if rng and all(isinstance(v, Lin) for v in rng):
+                    t = Lin.sym(s.target.id)
+                    y.add_ineq(t - rng[0])
+                    y.add_ineq(rng[1] - t - ONE)
+                    y.enum_meet(s.target.id, "notin", ["None"])
+                    if y.bottom or y.infeasible():
+                        continue
                 outs.append(y)
             else:
                 outs += self.assume(s.test, x, True)
@@ -896,8 +1032,31 @@ class Interp:
         st.assign("r@prev", Lin.sym("self._r"))
         st.enum_set("$last", rec.yid)
         st.may["$seg"] = frozenset()
+        a0 = rec.arg(0)
+        if isinstance(a0, Lin):
+            st.assign("arg0@prev", a0)
+        else:
+            st.forget_all("arg0@prev")
+        if kind == "Reverse" and isinstance(rec.arg(1), Lin):
+            st.assign("lo@prev", rec.arg(1))
+        writes = False
+        if kind == "Forward":
+            wi, wa, sto = rec.arg(2, "write_ics"), rec.arg(3, "write_adj_deps"), rec.arg(4, "storage")
+            writes = truth(st, wi) is True or (truth(st, wa) is True and sto != Tok("StorageType.WORK"))
+        for c in sorted(self.containers):
+            g = f"$trk({c})"
+            t = st.enum_single(g)
+            if t is None:
+                continue
+            if writes:
+                st.enum_set(g, {"P": "0", "0": "W"}.get(t, "ERR"))
+            elif kind == "Move":
+                st.enum_set(g, "0")
+            else:
+                st.enum_set(g, "0")
         if kind == "Forward":
             storage, wadj = rec.arg(4, "storage"), rec.arg(3, "write_adj_deps")
+            wadj = {True: TRUE, False: FALSE}.get(truth(st, wadj), wadj)
             if storage == Tok("StorageType.WORK") and wadj == TRUE:
                 a, b = rec.arg(0), rec.arg(1)
                 unit = isinstance(a, Lin) and isinstance(b, Lin) and \
@@ -905,6 +1064,11 @@ class Interp:
                 st.enum_set("$work", "A" if unit else "A*")
             elif wadj == FALSE or (isinstance(storage, Tok) and storage != Tok("StorageType.WORK")):
                 st.enum_set("$work", "E")
+            elif pure_sym(storage) and (st.enum_get(pure_sym(storage)) or ("", ()))[0] == "in" and \
+                    "StorageType.WORK" not in st.enum_get(pure_sym(storage))[1]:
+                st.enum_set("$work", "E")
+            elif pure_sym(storage) in self.label_atoms:
+                st.enum_set("$work", "E")   # labels of a checkpoint table are RAM/DISK
             else:
                 st.enums.pop("$work", None)
         elif kind in ("Copy", "Move"):
